@@ -183,7 +183,7 @@ func addClientOp(o *clientOp) {
 }
 
 func init() {
-	addClientOp(&clientOp{name: "ListOffsets", key: 2, shake: true, targets: []target{{2, 0}, {2, 1}},
+	addClientOp(&clientOp{name: "ListOffsets", key: 2, targets: []target{{2, 0}, {2, 1}},
 		call: func(ctx context.Context, s *clientSetup, seq int) (string, error) {
 			r, err := s.client.ListOffsets(ctx, &kafka.ListOffsetsRequest{Topics: map[string][]kafka.OffsetRequest{topic: {kafka.FirstOffsetOf(0), kafka.LastOffsetOf(0)}}})
 			if err != nil {
@@ -197,7 +197,7 @@ func init() {
 			}
 			return fmt.Sprintf("%+v", r.Topics), nil
 		}})
-	addClientOp(&clientOp{name: "ListOffsetsOne", key: 2, targets: []target{{2, 0}},
+	addClientOp(&clientOp{name: "ListOffsetsOne", key: 2, shake: true, targets: []target{{2, 0}},
 		call: func(ctx context.Context, s *clientSetup, seq int) (string, error) {
 			r, err := s.client.ListOffsets(ctx, &kafka.ListOffsetsRequest{Topics: map[string][]kafka.OffsetRequest{topic: {kafka.LastOffsetOf(0)}}})
 			if err != nil {
@@ -382,6 +382,7 @@ func untilOK(s *clientSetup, op *clientOp, seq int) (data string, err error, out
 // killConn makes the connection that carries the operation's own request
 // fail once, so that the next call has to open (and negotiate) a new one.
 func killConn(s *clientSetup, op *clientOp) {
+	time.Sleep(300 * time.Microsecond) // let the Transport put the last connection back into its pool
 	s.arm(clientCase{Op: op.name, TKey: op.key, TIdx: 0, K: 0}, "eof")
 	clientCall(s, op, 0, 3*time.Second)
 	s.disarm()
@@ -439,9 +440,10 @@ func evalClient(tb ev.TB, s *clientSetup, c clientCase, base *clientBase, seq in
 	fail := func(sig, format string, args ...any) bool {
 		var j string
 		for _, ex := range s.cl.Journal() {
-			if len(j) < 2500 {
-				j += fmt.Sprintf("  seq%d conn%d b%d %s v%d %s %s cut@%d/%d\n", ex.Seq, ex.ConnID, ex.BrokerID, ex.ApiName, ex.Version, ex.Tag, ex.Outcome, ex.CutAt, ex.RespBytes)
-			}
+			j += fmt.Sprintf("  seq%d conn%d b%d %s v%d %s %s cut@%d/%d\n", ex.Seq, ex.ConnID, ex.BrokerID, ex.ApiName, ex.Version, ex.Tag, ex.Outcome, ex.CutAt, ex.RespBytes)
+		}
+		if len(j) > 2500 {
+			j = "  ...\n" + j[len(j)-2500:]
 		}
 		return ev.Fail(tb, "client", sig, c, "Client.%s (v<=%d), response of %s #%d (handshake=%v) cut after %d of %d bytes (%s; %s), variant %s: "+format+"\njournal:\n%s",
 			append(append([]any{c.Op, c.Ver, apiName(c.TKey), c.TIdx, c.Shake, c.K, base.frame.Len, region, field, c.Variant}, args...), j)...)
@@ -478,9 +480,25 @@ func evalClient(tb ev.TB, s *clientSetup, c clientCase, base *clientBase, seq in
 	}
 	s.mu.Lock()
 	hitConn, hitSeq, hitVer, hit := s.hitConn, s.hitSeq, s.hitVer, s.hitFrame != nil
+	if hit {
+		// judge by the frame that was actually cut (which of two parallel requests comes first may vary)
+		fi := frameInfo{Len: len(s.hitFrame), Fields: s.hitField, Marks: fetchMarksIf(c.TKey, s.hitFrame, s.hitField)}
+		base = &clientBase{frame: fi, data: base.data, err: base.err}
+		region, field = fi.regionOf(c.K)
+	}
 	s.mu.Unlock()
+	if !hit && c.Shake {
+		// the Transport still had an idle connection (it returns a connection to its pool after handing
+		// out the response, so a quick next call may open a second one): no handshake, nothing was cut
+		ev.Count("handshake_not_needed", 1)
+		return
+	}
 	if !hit {
-		tb.Fatalf("harness: Client.%s did not cause %s #%d (handshake=%v)", c.Op, apiName(c.TKey), c.TIdx, c.Shake)
+		var j string
+		for _, ex := range s.cl.Journal() {
+			j += fmt.Sprintf("  seq%d conn%d b%d %s v%d %s %s cut@%d/%d\n", ex.Seq, ex.ConnID, ex.BrokerID, ex.ApiName, ex.Version, ex.Tag, ex.Outcome, ex.CutAt, ex.RespBytes)
+		}
+		tb.Fatalf("harness: Client.%s did not cause %s #%d (handshake=%v) case %+v err=%v took=%v\n%s", c.Op, apiName(c.TKey), c.TIdx, c.Shake, c, err, out.Took, j)
 	}
 	final := !c.Shake && c.TKey == op.key
 	for _, tg := range op.targets {
@@ -500,6 +518,14 @@ func evalClient(tb ev.TB, s *clientSetup, c clientCase, base *clientBase, seq in
 			fail("c17/complete-response-differs/client/"+sig, "the whole response was delivered, yet the outcome (%q, %v) differs from the one without fault (%q)", data, err, base.data)
 			return
 		}
+	} else if !delivered && op.key == 3 && err == nil {
+		// Client.Metadata is answered from the Transport's cache, which its refresh loop fills: the call
+		// is not pending on the exchange that was cut and may be served by a later, complete one
+		if data != base.data {
+			fail("c17/fake-data/client/"+sig, "the call returned %q, without fault it returns %q", data, base.data)
+			return
+		}
+		labels = append(labels, "metadata_served_by_later_refresh")
 	} else if !delivered {
 		if err == nil {
 			fail("c17/no-error/client/"+sig, "the call reported no error and returned %q", data)
@@ -570,7 +596,7 @@ func clientGroups() []clientCase {
 func enumerateClientGroup(tb ev.TB, g clientCase) {
 	base := clientProbe(tb, g)
 	if base == nil {
-		ev.Count("client_target_not_sent", 1)
+		ev.Count(fmt.Sprintf("client_target_not_sent:%s/%s#%d/shake=%v", g.Op, apiName(g.TKey), g.TIdx, g.Shake), 1)
 		return
 	}
 	rnd := newPrng("client", g.Op, g.Ver, g.TKey, g.TIdx, g.Shake)
@@ -578,6 +604,9 @@ func enumerateClientGroup(tb ev.TB, g clientCase) {
 	stride := 1
 	if !all {
 		stride = 4
+		if g.Op == "Metadata" {
+			stride = 9 // a fresh Transport per case
+		}
 	}
 	ks, exhaustive := positions(base.frame.Len, base.frame.bounds(), all, stride, ev.Scale(16, 128), rnd.intn)
 	if exhaustive {
@@ -623,7 +652,11 @@ func TestClientOps(t *testing.T) {
 		if i%of != idx {
 			continue
 		}
+		t0 := time.Now()
 		enumerateClientGroup(t, g)
+		if d := time.Since(t0); d > 2*time.Second {
+			t.Logf("group %+v took %v", g, d)
+		}
 	}
 }
 
@@ -764,9 +797,11 @@ func (b *bareBroker) serve(sc *memnet.ServerConn) {
 		} else {
 			sc.Write(frame[:k])
 		}
-		b.mu.Lock()
-		b.cutConns[sc.ID()] = true
-		b.mu.Unlock()
+		if k < len(frame) {
+			b.mu.Lock()
+			b.cutConns[sc.ID()] = true
+			b.mu.Unlock()
+		}
 		sc.Abort(rst)
 		deadline := time.Now().Add(2 * time.Second)
 		for !sc.ClientClosed() && time.Now().Before(deadline) {
@@ -1109,7 +1144,18 @@ func TestEveryAPI(t *testing.T) {
 		tr := &kafka.Transport{Dial: b.nw.Dial, ClientID: "c17", MetadataTTL: time.Hour, DialTimeout: 2 * time.Second}
 		defer tr.CloseIdleConnections()
 		c.Level = "transport"
+		// the complete response followed by the end of the connection first: the Transport cannot know
+		// that this connection is gone and may try it once more
+		c.K, c.Variant = len(frame), "eof"
+		evalTransport(t, b, tr, c, frame, fi)
+		b.set(-1, false)
+		ctx0, cancel0 := context.WithTimeout(context.Background(), 3*time.Second)
+		guarded(5*time.Second, func() { tr.RoundTrip(ctx0, kafka.TCP(bareAddr), apiRequest(a.Key)) })
+		cancel0()
 		for i, k := range tks {
+			if k >= len(frame) {
+				continue
+			}
 			c.K, c.Variant = k, "eof"
 			if i%4 == 3 {
 				c.Variant = "rst"
